@@ -26,6 +26,12 @@ static Json::Value gen() {
         acts.append(n.compare(0, 8, "kill_by_") == 0 ? a : x);
       }
       rs["actions"] = acts;
+      // the restart action in a ruleset with a ruleset-level cgroup: one instance (and one copy of the
+      // action, with its arguments) per matching cgroup
+      if (P(40)) {
+        rs["cgroup"] = P(50) ? "*" : "*/*";
+        sc["meta"]["percg"] = true;
+      }
     }
   }
   // a prekill hook that matches everything and needs a few polls: the dry run
@@ -112,6 +118,12 @@ static Verdict run(const Json::Value& sc) {
     }
   }
   if (!v.ok) return v;
+  if (sc["meta"].get("percg", false).asBool()) {
+    // several instances per ruleset and tick: only the absence of side effects is judged
+    v.labels.push_back("restart_under_ruleset_cgroup");
+    v.nontrivial = true;
+    return v;
+  }
   // 2. first decision
   auto key = [](const Invocation& i) { return std::make_pair(i.tick, i.rs); };
   const Invocation* wfirst = nullptr;
